@@ -118,13 +118,36 @@ inductive Out where
   | closeReturned
   deriving Repr, Inhabited
 
+/-- Regenerated facts about the waiter's exit path: the `awaitingReply` entry is deleted on every
+    exit of the wait functions (in `doneWaiting`, called once at the end of each; or, in the older
+    shape, by a `delete` in each wait function). -/
+def genDeletesEntry : Bool :=
+  (Client.doneWaitingDeletes == 1 && Client.waitForReplyDoneWaitingCalls == 1 &&
+    Client.waitForReplyWithCancelDoneWaitingCalls == 1) ||
+  (Client.waitForReplyDeletes == 1 && Client.waitForReplyWithCancelDeletes == 1)
+
+/-- … and `runSignalReply` can abandon a reply whose waiter has gone: its select watches the
+    waiter's `gone` channel, which `doneWaiting` closes (after the delete) on every exit. -/
+def genSignalEscapes : Bool :=
+  Client.signalSelect.contains "recv w.gone" && Client.replyWaiterHasGone &&
+  Client.doneWaitingClosesGone == 1 && Client.doneWaitingDeleteFirst &&
+  Client.waitForReplyDoneWaitingCalls == 1 && Client.waitForReplyWithCancelDoneWaitingCalls == 1
+
+/-- Aborting the session over an unannounced PPT result closes the peer itself (the shape before
+    fix aee6f97) instead of `abortSession` = send ABORT, `EndRecv`, leave the close to `Close()`. -/
+def genAbortClosesSend : Bool :=
+  !(Client.sessCloseCallers == ["Close"] && Client.abortSessionEndsRecv &&
+    Client.abortSessionSelect == ["send c.sess.Send()", "recv c.Done()"] &&
+    Client.abortSessionCallers == ["Call", "CallProgressive", "runHandleInvocation"])
+
 structure Cfg where
   timeout : Nat := 1000                -- responseTimeout, ms
   cancelMode : String := Client.defaultCancelMode
-  signalEscapes : Bool := Client.signalHasEscape
-  deletesEntry : Bool := Client.waitForReplyDeletes == 1 && Client.waitForReplyWithCancelDeletes == 1
+  signalEscapes : Bool := genSignalEscapes
+  deletesEntry : Bool := genDeletesEntry
+  abortClosesSend : Bool := genAbortClosesSend
   closeFactor : Nat := Client.closeWaitFactor
-  pptChecked : Bool := pptChecked
+  ppt : PptFacts := PptFacts.gen
   dealerPPT : Bool := true
   deser : Deser := fun _ _ => .err
 
@@ -254,6 +277,14 @@ def Ev.isRun : Ev → Bool
 def State.runExit (st : State) : State :=
   ({ st with run := .exited, done := true }).emit .done
 
+/-- `abortSession`: `select { case c.sess.Send() <- abort: case <-c.Done(): }; c.sess.EndRecv(nil)` —
+    the loop then exits at its select and `Close()` closes the peer, once. (Before fix aee6f97:
+    send ABORT and `c.sess.Close()` right here.) -/
+def abortSession (cfg : Cfg) (st : State) : State :=
+  if cfg.abortClosesSend then { st.sendR (.abort N.ErrProtocolViolation) with sendClosed := true }
+  else if st.done then { st with recvDone := true }
+  else { st.sendR (.abort N.ErrProtocolViolation) with recvDone := true }
+
 /-- What the API call does with what `waitForReply…` returned, before it returns itself: store the
     handler (Subscribe / Register), unpack a PPT result (Call; may panic; on a protocol violation
     sends ABORT and closes the send side). Yields the state and what the call returns. -/
@@ -264,9 +295,9 @@ def postProcess (cfg : Cfg) (st : State) (w : Waiter) (r : Ret) : Outcome (State
   | .register, .msg (.registered _ reg) =>
     .ok ({ st with invHandlers := reg :: st.invHandlers, procReg := (w.name, reg) :: st.procReg }, r)
   | .call, .msg (.result q d a k) =>
-    match prepareCallResult cfg.pptChecked cfg.deser cfg.dealerPPT d a k with
+    match prepareCallResult cfg.ppt cfg.deser cfg.dealerPPT d a k with
     | .panic site => .panic site
-    | .ok .abort => .ok ({ st.sendR (.abort N.ErrProtocolViolation) with sendClosed := true }, .pptAbort)
+    | .ok .abort => .ok (abortSession cfg st, .pptAbort)
     | .ok (.err e) => .ok (st, .pptErr e)
     | .ok (.ok a' k') => .ok (st, .msg (.result q d a' k'))
   | _, _ => .ok (st, r)
@@ -345,7 +376,7 @@ def dispatch (cfg : Cfg) (st : State) (m : RMsg) : State :=
     | .event sub pub d a k =>
       if fn == "runHandleEvent" then
         if st.eventHandlers.contains sub then
-          match eventPpt cfg.pptChecked cfg.deser d a k with
+          match eventPpt cfg.ppt cfg.deser d a k with
           | .panic site => { st with crashed := some site }
           | .ok (.dropped _) => st.emit (.eventDropped sub)
           | .ok (.handle a' k') => { st with run := .inEvent }.emit (.eventStart sub pub a' k')
